@@ -128,13 +128,17 @@ Qed.
 
 (** string-cursor-ref at the cursor of character k is character k *)
 Lemma cursor_ref_refines h s cs k : Rep h s cs -> (k < length cs)%nat ->
-  decode_at (sdata h s) (cursor_of cs k) = Some (nth k cs 0).
+  decode_at (sdata h s) (cursor_of cs k) (remaining s (cursor_of cs k)) = Some (nth k cs 0).
 Proof.
-  intros (Hcp & _ & _ & post & Hd & _) Hk.
+  intros (Hcp & _ & Hsz & post & Hd & _) Hk.
   destruct (cursor_of_S cs k Hcp Hk) as (E & _ & Hc).
   set (x := nth k cs 0) in *. rewrite Hd. unfold cursor_of. rewrite E at 1.
   rewrite enc_all_app, enc_all_cons, <- !app_assoc, decode_at_app.
-  destruct (utf8_roundtrip_all x Hc (enc_all (skipn (S k) cs) ++ post)) as (D & _). exact D.
+  destruct (utf8_roundtrip_all x Hc (enc_all (skipn (S k) cs) ++ post)) as (D & _ & W). apply D.
+  assert (HL : length (enc_all cs) = Nat.add (length (enc_all (firstn k cs)))
+            (Nat.add (length (encode (nth k cs 0))) (length (enc_all (skipn (S k) cs)))))
+    by (rewrite E at 1; rewrite enc_all_app, enc_all_cons, !app_length; reflexivity).
+  unfold remaining. rewrite Hsz, <- W. fold x in HL. lia.
 Qed.
 
 Lemma length_le_enc cs : Forall cp cs -> (length cs <= length (enc_all cs))%nat.
